@@ -166,7 +166,7 @@ def run_tlc(
 ) -> TLCResult:
     """Run TLC on wd/module.tla (cfg wd/module.cfg); modules of /verif/spec are on the library path."""
     meta = os.path.join(wd, "meta-%s-%d" % (module, int(time.time() * 1000) % 10**9))
-    cmd = ["java", "-XX:+UseParallelGC", "-Xmx" + heap, "-DTLA-Library=" + SPEC]
+    cmd = ["java", "-XX:+UseParallelGC", "-Xmx" + heap, "-Xss32m", "-DTLA-Library=" + SPEC]
     if deque:
         cmd.append("-Dtlc2.tool.queue.IStateQueue=StateDeque")
     cmd += ["-cp", JAR, "tlc2.TLC", "-workers", str(workers), "-metadir", meta, "-noGenerateSpecTE"]
@@ -242,9 +242,14 @@ def substitute(text: str, subst: Dict[str, str]) -> str:
     return text
 
 
+def first_error(out: str) -> str:
+    i = out.find("Error:")
+    return out[max(0, i - 200): i + 2500] if i >= 0 else out[:2500]
+
+
 def require_ok(res: TLCResult, what: str) -> TLCResult:
     if res.status == "broken":
-        raise MachineryError("TLC failed (%s):\n%s\n%s" % (what, res.cmd, res.out[-4000:]))
+        raise MachineryError("TLC failed (%s):\n%s\n%s\n...\n%s" % (what, res.cmd, first_error(res.out), res.out[-1500:]))
     return res
 
 
@@ -312,7 +317,7 @@ def validate_traces(
     rejects, infos = [], []
     for i, r in enumerate(results):
         if r.status != "ok":
-            raise MachineryError("trace monitor %s failed:\n%s\n%s" % (trace_module, r.cmd, r.out[-6000:]))
+            raise MachineryError("trace monitor %s failed:\n%s\n%s\n...\n%s" % (trace_module, r.cmd, first_error(r.out), r.out[-1500:]))
         a = r.tuples("ACCEPTED")
         if len(a) != 1 or a[0][3] != len(chunks[i]):
             raise MachineryError("trace monitor %s: missing/odd ACCEPTED line:\n%s" % (trace_module, r.out[-3000:]))
